@@ -1,7 +1,7 @@
 (* C03Lemmas.v -- the round-trip statements of C03 assembled: geff.write of a networkx / rustworkx graph into a
    fresh store, geff.read through the same library, adapter view = the graph that was written. *)
 From Geff Require Import Base Dtype DtypeLemmas Vlen VlenLemmas Tree TreeLemmas Validate Write Read RoundTrip WriteLemmas ReadLemmas
-     ValidateLayout C01Lemmas Dicts Backends BackendsLemmas DictsLemmas.
+     ValidateLayout C01Lemmas Dicts Backends BackendsLemmas DictsLemmas ListColLemmas.
 From Coq Require Import Lia.
 Open Scope string_scope.
 Open Scope list_scope.
@@ -212,3 +212,36 @@ Qed.
 Lemma ex_big_missing_result : nx_rt true ex_big_missing 0 0
   = Ok (mkcg true [(1%Z, [("p", CScalar SFloat (2 ^ 63 * 1024))]); (2%Z, [])] []).
 Proof. vm_compute. reflexivity. Qed.
+
+(* ================= the full value domain: scalars, fixed-shape lists, ragged lists ================= *)
+Record dom_values (d : bool) (g : dgraph) : Prop := {
+  dv_range : Forall (fun z => (0 <= z < 2 ^ 64)%Z) (map fst (d_nodes g));
+  dv_distinct : distinctb Z.eqb (map fst (d_nodes g)) = true;
+  dv_edistinct : distinctb (ekey_eqb d) (map fst (d_edges g)) = true;
+  dv_endpoints : forall e, In e (map fst (d_edges g)) -> In (fst e) (map fst (d_nodes g)) /\ In (snd e) (map fst (d_nodes g));
+  dv_ncols : forall name, In name (keys_of (map snd (d_nodes g))) -> name <> "" /\ val_col (column (map snd (d_nodes g)) name);
+  dv_ecols : forall name, In name (keys_of (map snd (d_edges g))) -> name <> "" /\ val_col (column (map snd (d_edges g)) name)
+}.
+
+Lemma dom_values_dicts d g : dom_values d g -> dom_dicts cv_of_py d g.
+Proof. intros H. constructor; try apply H.
+  - apply values_cols_ok. apply (dv_ncols _ _ H).
+  - apply values_cols_ok. apply (dv_ecols _ _ H). Qed.
+
+Lemma dom_scalar_values d g : dom_scalar d g -> dom_values d g.
+Proof. intros H. constructor; try apply H.
+  - intros name Hin. destruct (ds_ncols _ _ H name Hin) as [Hne Hd]. split; [exact Hne|]. split; [|left; exact Hd].
+    intro E. apply (keys_nonempty _ name Hin). apply length_zero_iff_nil. rewrite <- (column_length _ name), E. reflexivity.
+  - intros name Hin. destruct (ds_ecols _ _ H name Hin) as [Hne Hd]. split; [exact Hne|]. split; [|left; exact Hd].
+    intro E. apply (keys_nonempty _ name Hin). apply length_zero_iff_nil. rewrite <- (column_length _ name), E. reflexivity. Qed.
+
+Theorem nx_rt_values d g mdtok axtok : dom_values d g ->
+  exists cg, nx_rt d g mdtok axtok = Ok cg /\ same_graph cv_of_py d g cg.
+Proof. intros H. destruct (nx_roundtrip cv_of_py d g mdtok axtok (dom_values_dicts d g H)) as [post [mg [cg [Hw [_ [Hr [Hc Hs]]]]]]].
+  exists cg. split; [|exact Hs]. unfold nx_rt. rewrite Hw, Hr. exact Hc. Qed.
+
+Theorem rx_rt_values d g idmap g' mdtok axtok : rx_target idmap g = Ok g' -> dom_values d g' ->
+  exists cg, rx_rt d g idmap mdtok axtok = Ok cg /\ same_graph cv_of_py d g' cg.
+Proof. intros Ht H. destruct (rx_roundtrip cv_of_py d g idmap g' mdtok axtok Ht (dom_values_dicts d g' H))
+    as [post [mg [r [cg [Hw [_ [Hr [Hc [Hcr Hs]]]]]]]]].
+  exists cg. split; [|exact Hs]. unfold rx_rt. rewrite Hw, Hr, Hc, Hcr. reflexivity. Qed.
